@@ -192,15 +192,15 @@ def run_sweep(case) -> CaseResult:
 def tensor_cases(draw, tier):
     dtype = draw(st.sampled_from(["float32", "float64", "bfloat16", "float16", "float32", "float64"]))
     if dtype == "float16":
-        E = draw(st.integers(2, 5)); M = draw(st.integers(0, 10))
+        E = draw(st.integers(2, 5)); M = draw(st.sampled_from([10, 10, 9]) | st.integers(0, 10))   # the widest mantissas that still fit the dtype matter most
     elif dtype == "bfloat16":
-        E = draw(st.integers(2, 8)); M = draw(st.integers(0, 7))
+        E = draw(st.integers(2, 8)); M = draw(st.sampled_from([7, 7, 6]) | st.integers(0, 7))
     else:
         E = draw(st.integers(2, 8)); M = draw(st.integers(0, 23))
     rank = draw(st.integers(0, 3))
     shape = [draw(st.integers(0, 5) if draw(st.integers(0, 9)) == 0 else st.integers(1, 5)) for _ in range(rank)]
     layout = draw(st.sampled_from(["contiguous", "transposed", "strided", "expanded"])) if rank >= 1 else "contiguous"
-    profile = draw(st.sampled_from(["normal", "wide", "tiny", "values", "huge"]))
+    profile = draw(st.sampled_from(["normal", "wide", "tiny", "tiny", "values", "huge"]))
     return dict(E=E, M=M, dtype=dtype, shape=shape, layout=layout, profile=profile, seed=draw(st.integers(0, 2**20)))
 
 
